@@ -123,7 +123,9 @@ fn mate1(stm: u8) -> Score {
 fn check_mate1(ctx: &mut Ctx, model: &Pos1, fen: &str, mates: &[Mv], k: u64, o: &Outcome) -> Step {
     let want = mate1(model.stm);
     let feat = format!("stm={};mates={}", model.stm, mates.len().min(3));
-    if !mates.is_empty() && o.completed.is_some() {
+    // "the time limit lets the first pass finish": the engine says so itself, or the call
+    // returned while the clock had not yet reported expiry (nothing was interrupted)
+    if !mates.is_empty() && (o.completed.is_some() || o.polls <= k) {
         match o.mv {
             Some(m) if mates.contains(&m) => {
                 if o.score != want {
